@@ -329,6 +329,35 @@ def run(ctx):
                     ctx.case((name,), nontrivial=True)
             except Exception as ex:
                 rep(f"generate_lattice raised {type(ex).__name__}: {ex}")
+    # ---- the same point set in other representations (column-major, a transposed pair of coordinate rows, a strided view, read-only, a list of lists) and the
+    #      flags passed by position: the lattice is the one obtained from a fresh C-ordered array with keyword flags
+    canon_l = lambda x: (x.vertices.positions.tobytes(), x.edges.indices.tobytes(), x.edges.crossing.tobytes())
+    for t in range(4 if quick else 30):
+        N = int(rng.choice([6, 12, 20, 35]))
+        pts = rng.uniform(size=(N, 2))
+        for shift in (False, True):
+            name = f"representation(N={N})#{t}{'s' if shift else ''}"
+            rep = lambda what, **kw: ctx.impl_violation(f"{name}: {what}", dict(case=name, points=pts.tolist(), shift=shift, **kw))
+            try:
+                with warnings.catch_warnings():
+                    warnings.simplefilter("ignore")
+                    base = canon_l(vz.generate_lattice(pts.copy(), shift_vertices=shift))
+                    big = np.zeros((2 * N, 4)); big[::2, ::2] = pts
+                    ro = pts.copy(); ro.setflags(write=False)
+                    forms = [("column-major", np.asfortranarray(pts)), ("transposed coordinate rows", np.array([pts[:, 0], pts[:, 1]]).T), ("strided view", big[::2, ::2]),
+                             ("read-only", ro), ("float64 from a list of lists", np.array(pts.tolist()))]
+                    for lab, pv in forms:
+                        keep = np.array(pv).copy()
+                        if canon_l(vz.generate_lattice(pv, shift_vertices=shift)) != base:
+                            rep(f"the lattice differs when the same points are passed as a {lab} array", representation=lab); break
+                        if not np.array_equal(np.asarray(pv), keep):
+                            rep(f"generate_lattice modified the point array it was given ({lab})", representation=lab); break
+                    else:
+                        if canon_l(vz.generate_lattice(pts.copy(), False, shift)) != base:
+                            rep("generate_lattice(points, False, shift) with the flags by position differs from the call with shift_vertices= as a keyword")
+            except Exception as ex:
+                rep(f"raised {type(ex).__name__}: {ex}")
+            ctx.case((name,), nontrivial=True)
     # ---- medium sizes (a few hundred points), mostly with vertex shifting: code paths switched on by size that go wrong only for some point sets
     for t in range(36 if quick else 200):
         N = int(rng.integers(257, 420))
